@@ -172,14 +172,17 @@ class LoopMixin:
         if mode is None:
             return self.from_val(st, el, hint) if hint else SV("val", el)
         kind, d = mode
+        keysv = SV("val", el)
+        if d.h and d.h.startswith("str->"):
+            keysv = self.from_val(st, el, "str")       # declared key type
         if kind == "keys":
-            return SV("val", el)
+            return keysv
         mp = self.map_of(st, d)
         vh = self.key_hint(d, SV("val", el))
         val = self.from_val(st, z3.Select(mp, el), vh) if vh else SV("val", z3.Select(mp, el))
         if kind == "values":
             return val
-        return SV("tuple", None, x=[SV("val", el), val])
+        return SV("tuple", None, x=[keysv, val])
 
     def havoc_locals(self, st, names, spec):
         decl = dict(spec.get("locals", {})) if isinstance(spec, dict) else {}
@@ -530,8 +533,10 @@ class LoopMixin:
             fr[gname] = self.sym(st, "gh_" + gname, ghint)
         for gname, gsrc in c.extra.get("ghost_defaults", {}).items():
             fr[gname] = self.spec_value(st, gsrc, fid, st.heap, None, {})
-        for label, src, props in c.requires:
+        for label, src, props in c.requires + c.assumes:
             st.assume(self.spec_eval(st, src, fid, st.heap, None, {}))
+        for label, src, props in c.assumes:
+            self.assumptions.add("assumed at %s: %s" % (c.qualname, label))
         st.heap0 = dict(st.heap)
         st.entry_frame = dict(fr)
         self.entry_symbols = set()
@@ -547,6 +552,10 @@ class LoopMixin:
         if c.decreases:
             st.snap["$measure"] = self.spec_value(st, c.decreases, fid, st.heap0, st.entry_frame, {}).t
         self.vacuous = not self.feasible(st)
+        if any(self.dec_name(d) == "exclusively" for d in fn.decorator_list) and names:
+            # the method runs inside `with self._lock:` of the exclusively wrapper (verified separately): ghost permission held
+            self.assumptions.add("threading.Lock: mutual exclusion; @exclusively methods run holding self._lock (wrapper verified under its own contract)")
+            st.held.append(self.hget(st, "_lock", fr[names[0]].t))
         if self.is_generator(fn) and fk == "contextmanager":
             st.yield_handler = self.cm_body_handler(c, fid)
             outs = self.exec_block(fn.body, st)
@@ -603,10 +612,14 @@ class LoopMixin:
                           info={"exc_class": str(z3.simplify(clsof(exc.t))) if exc.k in REFKINDS else "?"})
             else:
                 alts = []
+                earlier = []
                 for rs in c.raises:
                     cname = rs.get("cls") or "BaseException"
                     cid = self._register_class(cname)
-                    m = issub(clsof(exc.t), cid) if exc.k in REFKINDS else z3.BoolVal(False)
+                    m0 = issub(clsof(exc.t), cid) if exc.k in REFKINDS else z3.BoolVal(False)
+                    # ordered clauses: an exception is governed by the first clause whose class matches
+                    m = z3.And(m0, *[z3.Not(x) for x in earlier]) if earlier else m0
+                    earlier.append(m0)
                     if rs.get("same"):
                         pv = self.spec_value(st, rs["same"], fid, st.heap0, st.entry_frame, {})
                         m = box(exc) == box(pv)
